@@ -489,6 +489,17 @@ Section WP.
     - rewrite cell_col by lia; exact Hn.
   Qed.
 
+  (* sunshine hours: a present value reaches the model unchanged *)
+  Lemma sund_keep_lemma none vals : forall prev i,
+    eqb (nth i vals none) none = false -> nth i (sund_pass none prev vals) none = nth i vals none.
+  Proof.
+    induction vals as [|v rest IH]; intros prev i H; [destruct i; reflexivity|].
+    destruct i as [|i].
+    - cbn [nth] in H. cbn [sund_pass nth]. rewrite H.
+      destruct prev as [p|]; [destruct rest as [|n r]|]; cbn [andb]; rewrite H; reflexivity.
+    - cbn [sund_pass nth]. apply IH. exact H.
+  Qed.
+
   (* a sentinel on the first or the last record of the year file becomes 0 *)
   Lemma optional_edge_lemma none vals i :
     (i < length vals)%nat -> (length vals <= 366)%nat -> i = 0%nat \/ S i = length vals ->
